@@ -1,6 +1,6 @@
 """C19 every header is self-contained in every supported build configuration: exhaustive CONFIGURATION enumeration.
 
-The 'execution' is a compiler / linker / program run.  Four units, each the full cartesian product of a stated
+The 'execution' is a compiler / linker / program run.  Five units, each the full cartesian product of a stated
 finite space (see NOTES.md):
 
   U1 include   every header under include/xtl x {single, double include} x {g++, clang++} x {c++14,17,20}
@@ -15,6 +15,10 @@ finite space (see NOTES.md):
   U4 errpaths  per configuration one program with 17 error-path scenarios (errpaths.cpp), each run in its own
                process: with exceptions the documented exception must arrive (anti-vacuity, noted only); with
                -fno-exceptions the process must end inside the failing call.
+
+  U5 instantiate per header one TU with every entry of the committed table instantiations.py (explicit instantiation
+               definitions of the class templates + calls of every constructor / member / function template), built -O0
+               and linked; a failing TU is rebuilt entry by entry and reported as header:entry/member.
 
 Oracle: exit status and diagnostics of compiler and linker, exit status / signal / printed markers of the programs.
 """
